@@ -24,12 +24,15 @@ KEYS = {
     'bool': [('F', 'BOOLEAN')], 'real': [('X', 'REAL')],
     'uid_str': [('Id', 'UNIQUE_ID'), ('Name', 'STRING')],
     'int_uid': [('N', 'INTEGER'), ('Id', 'UNIQUE_ID')],
+    'int_int': [('N', 'INTEGER'), ('M', 'INTEGER')],
     'shared': [('Id', 'UNIQUE_ID')],
 }[SCHEMA]
 COMPOSITE_POOLS = {'UNIQUE_ID': [0, 1, 2], 'STRING': ['', 'a'], 'INTEGER': [0, 1]}
 
 
 def key_pool():
+    if SCHEMA == 'int_int':
+        return [(1, 1), (1, 2), (2, 1), (2, 2)]
     if SCHEMA == 'shared':
         return [(0,), (1,), (2,)]
     if len(KEYS) == 1:
